@@ -911,6 +911,21 @@ func jwsReplay(args []string) {
 			mod.X = "+" + j.X[1:]
 		case "x_short_shadowed":
 			mod.X = b64(x[1:])
+		case "x_short_linebreak":
+			t := b64(x[1:])
+			mod.X = t[:len(t)/2] + "\n" + t[len(t)/2:]
+			if len(mod.X)%4 == 1 {
+				mod.X = t[:len(t)/2] + "\r\n" + t[len(t)/2:]
+			}
+		case "x_short_name_case":
+			mod.X = b64(x[1:])
+			mod.Crv = map[string]string{"Ed25519": "ed25519", "P-256": "p-256", "P-384": "p-384", "P-521": "p-521", "secp256k1": "SECP256K1"}[j.Crv]
+			if len(x)%2 == 0 {
+				mod.Kty = strings.ToLower(j.Kty)
+			}
+		case "x_escaped_text":
+			// (the first character written as a JSON escape, as text: no base64url character)
+			mod.X = fmt.Sprintf("\\u%04x", j.X[0]) + j.X[1:]
 		case "x_long_256":
 			mod.X = b64(append(make([]byte, 256), x...))
 			if c.Kt == "ed" {
